@@ -4,9 +4,17 @@
 (* is printed as one JSON case.                                               *)
 EXTENDS WireRx, Json
 
+CONSTANTS AllMaxTotal,  \* style "all": only streams of at most this many bytes
+          EdgesMaxN     \* style "edges": only sequences of at most this many PDUs
+
 VARIABLES segs, rests
 
-GInit == Init /\ segs = <<>> /\ rests = <<>>
+RECURSIVE Sum(_)
+Sum(s) == IF s = <<>> THEN 0 ELSE Head(s) + Sum(Tail(s))
+
+GInit == /\ Init /\ segs = <<>> /\ rests = <<>>
+         /\ (style = "all") => (Sum(seq) <= AllMaxTotal)
+         /\ (style = "edges") => (Len(seq) <= EdgesMaxN)
 GNext == \/ (RecvStart \/ Closed) /\ UNCHANGED <<segs, rests>>
          \/ Parse /\ rests' = Append(rests, Len(rbuf')) /\ UNCHANGED segs
          \/ \E k \in 1..Len(pending) : Deliver(k) /\ segs' = Append(segs, k) /\ UNCHANGED rests
